@@ -187,13 +187,93 @@ def run_case(case, rec):
     return fails
 
 
+# ---------------------------------------------------------------- object-level helpers
+def util_cases(tier):
+    @st.composite
+    def one(draw):
+        U = draw(spec.universes(max_classes=3, xml=False))
+        if not U["classes"]:
+            U["classes"] = [{"name": "C0", "ns": U["tns"], "extends": None,
+                             "fields": [["a", {"k": "prim", "t": "Integer", "f": {},
+                                               "occ": {"min": 0, "max": 1, "nillable": True}}],
+                                        ["d", {"k": "prim", "t": "Decimal", "f": {},
+                                               "occ": {"min": 0, "max": 1, "nillable": True}}]]}]
+        cname = draw(st.sampled_from([c["name"] for c in U["classes"]]))
+        vg = values.ValueGen(U, special_floats=False)
+        return {"part": "util", "U": U, "cls": cname, "v": draw(vg.single({"k": "ref", "n": cname})),
+                "fmt": draw(st.sampled_from(["json", "yaml"]))}
+    return one()
+
+
+def run_util(case, rec):
+    """spyne.util.dictdoc: get_object_as_json/yaml/doc and json_loads/yaml_loads/get_doc_as_object
+    against the same reference mapping (a service-free second surface)"""
+    from spyne.util import dictdoc as dd
+    fails = []
+    U, cname, v, fmt = case["U"], case["cls"], case["v"], case["fmt"]
+    t = {"k": "ref", "n": cname}
+    try:
+        B = build.Built(U)
+        cls = B.classes[cname]
+        inst = B.to_native(t, v)
+    except Exception:
+        rec.case(case, classes=["util:build-skip"])
+        return fails
+    try:
+        if fmt == "json":
+            C = ref_dict.Codec(U, ref_dict.Cfg("json"))
+            out = dd.get_object_as_json(inst, cls, complex_as=dict)
+            got = C.decode_slot(t, json.loads(out.decode("utf8")))
+            text = json.dumps(C.encode_slot(t, v)).encode("utf8")
+            back = dd.json_loads(text, cls)
+        elif fmt == "yaml":
+            C = ref_dict.Codec(U, ref_dict.Cfg("yaml", wrappers=True))
+            out = dd.get_object_as_yaml(inst, cls)
+            if isinstance(out, bytes):
+                out = out.decode("utf8")
+            got = C.decode_slot(t, yaml.safe_load(out))
+            text = yaml.safe_dump(C.encode_slot(t, v), allow_unicode=True)
+            if yaml.safe_load(text) != C.encode_slot(t, v):
+                rec.count("oracle_unavailable:yaml")
+                rec.case(case, classes=["util:oracle_unavailable"])
+                return fails
+            back = dd.yaml_loads(text, cls)
+        else:
+            C = ref_dict.Codec(U, ref_dict.Cfg("json"))
+            got = C.decode_slot(t, dd.get_object_as_doc(inst, cls))
+            back = dd.get_doc_as_object(C.encode_slot(t, v), cls, complex_as=dict)
+    except Exception as e:
+        et, where = F.exc_origin(e)
+        fails.append(("C02|util-raises|%s|%s|%s" % (fmt, et, where),
+                      "spyne.util.dictdoc helper (%s) raised %r for %r" % (fmt, e, v)))
+        rec.case(case, failures=fails, classes=["util:raises"])
+        return fails
+    r = values.value_eq(B, t, got, v, path="out")
+    if r:
+        fails.append(("C02|util-out|%s|%s" % (fmt, _diff_class(t, r)),
+                      "get_object_as_%s: the emitted document denotes a different value: %s" % (fmt, r)))
+    r = values.value_eq(B, t, back, v, path="in")
+    if r:
+        fails.append(("C02|util-in|%s|%s" % (fmt, _diff_class(t, r)),
+                      "%s loads helper: the object differs from the encoded value: %s" % (fmt, r)))
+    labs = values.classes_of(t, v, U)
+    nt = {"fmt": fmt, "labs": sorted(labs)} if (labs & INTERESTING or "nested_object" in labs) else None
+    rec.case(case, failures=fails, nontrivial=nt, classes=["part:util", "util:" + fmt])
+    return fails
+
+
 def shards(tier):
     n = 600 if tier == "quick" else 12000
-    return [{"kind": "hyp", "i": i, "n": n} for i in range(16)]
+    n2 = 300 if tier == "quick" else 6000
+    return [{"kind": "hyp", "part": "rpc", "i": i, "n": n} for i in range(13)] + \
+           [{"kind": "hyp", "part": "util", "i": i, "n": n2} for i in range(3)]
 
 
 def run_shard(shard, rec):
-    rec.hyp(cases(rec.tier), lambda case: run_case(case, rec), shard["n"])
+    if shard.get("part") == "util":
+        rec.hyp(util_cases(rec.tier), lambda case: run_util(case, rec), shard["n"])
+    else:
+        rec.hyp(cases(rec.tier), lambda case: run_case(case, rec), shard["n"])
 
 
 class _NullRec(object):
@@ -207,4 +287,6 @@ class _NullRec(object):
 
 
 def replay(case):
+    if case.get("part") == "util":
+        return run_util(case, _NullRec())
     return run_case(case, _NullRec())
